@@ -3,6 +3,6 @@ SPECIFICATION Spec
 CONSTANTS
   MaxDev = 2
   UseBackends = {"echo"}
-  NPick = 6
+  NPick = 10
 INVARIANTS TypeOK Laws Single Emit
 CHECK_DEADLOCK FALSE
